@@ -38,6 +38,10 @@ def first_of(c, lst: VList):
     c.st.assume(z3.ForAll([x, j], z3.Implies(z3.And(mem[x], 0 <= j, j < first(x)), lst.arr[j] != x), patterns=[z3.MultiPattern(first(x), lst.arr[j])]))
     j2 = z3.Int(fresh_name("j"))
     c.st.assume(z3.ForAll([j2], z3.Implies(z3.And(0 <= j2, j2 < lst.n), first(lst.arr[j2]) <= j2), patterns=[lst.arr[j2]]))
+    idx = getattr(lst, "idx_fn", None)
+    if idx is not None:
+        # the list is a duplicate-free enumeration (of a set / dict): the first occurrence of x is its only one
+        c.st.assume(z3.ForAll([x], z3.Implies(mem[x], first(x) == idx(x)), patterns=[first(x)]))
     cache = dict(cache)
     cache[key] = (mem, first)
     c.st.ghost["first_of"] = cache
@@ -356,7 +360,10 @@ def register(reg):
                          ensures=helper("ordered_union", z3.SetUnion), loops={0: union_loop}, modifies=(("OrderedSet", "impl"),), fresh_result=True))
 
 
-HELPER_KEYS = [h + t for h in ("ordered_intersect", "ordered_union", "ordered_diff") for t in ("", "[a=OrderedSet]", "[b=OrderedSet]", "[a,b=OrderedSet]")]
+# ordered_union with an OrderedSet as SECOND argument is not in the proved set: relating the loop's enumeration of b to the caller-visible order of b
+# needs an order isomorphism between two enumerations of the same ordered dict that z3 does not find (unknown after 140 s); that variant is bounded-only.
+HELPER_KEYS = [h + t for h in ("ordered_intersect", "ordered_union", "ordered_diff") for t in ("", "[a=OrderedSet]", "[b=OrderedSet]", "[a,b=OrderedSet]")
+               if not (h == "ordered_union" and "b=OrderedSet" in t)]
 
 
 def T_varargs(names):
